@@ -44,6 +44,17 @@ def gen_cases(tier, seed):
             spec['plan']['faults'] = [{'at': f't0/s3:GetObject:{C * rng.randrange(0, 3)}#0', 'phase': 'body', 'bytes': rng.randrange(0, C),
                                        'kind': 'connreset', 'tag': 'FAULT-r'}]
         cases.append(spec)
+    # more stream uploads than the submission stage has room for, with slow part requests: whoever calls upload() when the stage is full
+    # waits - the streams are read by the submission threads only, so the buffered bytes stay within the bound
+    for i in range(60 if quick else 600):
+        n = rng.choice([3, 4, 5])
+        T, C = rng.choice([(16, 8), (8, 8)])
+        cfg = dict(multipart_threshold=T, multipart_chunksize=C, io_chunksize=4, max_submission_queue_size=rng.choice([1, 1, 2]),
+                   max_submission_concurrency=rng.choice([1, 2]), max_in_memory_upload_chunks=rng.choice([1, 2]), max_request_concurrency=rng.choice([1, 2]),
+                   max_request_queue_size=rng.choice([1, 2, 1000]))
+        ts = [{'kind': 'upload', 'src': rng.choice(['nonseekable', 'seekable']), 'size': rng.choice([3 * C, 5 * C + 1, 8 * C])} for _ in range(n)]
+        cases.append({'seed': rng.randrange(1 << 30), 'min_part': min(C, T), 'config': cfg, 'transfers': ts, 'family': 'many-stream-uploads',
+                      'plan': {'gate': {'match': 's3:UploadPart', 'phase': 'before', 'policy': rng.choice(['lowest_last', 'seeded'])}, 'delay_p': 0.0}})
     # user streams whose reads come back short (pipes, sockets): the part bodies built from them must still respect the buffer size
     for i in range(40 if quick else 400):
         C = 8
